@@ -136,8 +136,8 @@ def parse_operand(s):
         return ('move', pl)
     if s.startswith('const '):
         return ('const', s[6:])
-    if re.match(r'^[<\w]', s) and '::' in s:
-        return ('const', s)     # bare fn item used as a value, e.g. `core::str::<impl str>::trim`
+    if re.match(r'^[<A-Za-z_][\w:<>&\[\] ,\'()]*$', s) and not s.startswith(('copy ', 'move ')):
+        return ('const', s)     # bare fn item used as a value, e.g. `core::str::<impl str>::trim`, `load_names`
     raise ValueError('operand? ' + s)
 
 BINOPS = {'Add','Sub','Mul','Div','Rem','BitXor','BitAnd','BitOr','Shl','Shr','Eq','Lt','Le','Ne','Ge','Gt','Cmp','Offset',
